@@ -11,7 +11,7 @@ import (
 // exactly n, Has is membership, Len counts members. Covers the 63/64 boundary between the
 // bitmap and the map.
 //
-//verif:props=C26 bounds=arbitrary-64-bit-bitmap;<=2-arbitrary-large-members;all-uint64-n,m solver=cvc5 timeout=30000
+//verif:props=C26 bounds=arbitrary-64-bit-bitmap;<=2-arbitrary-large-members;all-uint64-n,m solver=cvc5 timeout=30000 deadline=900
 func H_C26_set() {
 	var s Ints
 	s.lo = int64s(nd.Uint64())
